@@ -229,6 +229,11 @@ impl<S: Read + Write> Client<S> {
         self.transport.shutdown()
     }
 
+    /// True if another payload could be read without waiting for the socket
+    pub fn has_buffered_data(&self) -> bool {
+        self.transport.has_buffered_data()
+    }
+
     #[cfg(feature = "integration")]
     pub fn get_link(self) -> Link<S> {
         self.transport
